@@ -5,7 +5,8 @@
 (* over the bounded item counts / heights / viewports, and every text up to *)
 (* MaxText over {narrow, narrow, wide, newline} at every width, and         *)
 (* evaluates the property's demands in each state.  A violation here is a   *)
-(* candidate to replay on the real widgets, not a verdict.                  *)
+(* candidate to replay on the real widgets, not a verdict.  OracleRows and  *)
+(* AsFoundRejected are sanity statements about the Pager oracle itself.     *)
 EXTENDS ListImpl, DynList, PagerImpl, ListRel, Pager, TLC, FiniteSets
 
 CONSTANTS MaxOps,       \* length of operation histories
@@ -86,4 +87,39 @@ VisibleAfterSelect ==
 PagerPresents == m = "pg" => Presents(PLayout(st.text, st.w), st.text, st.w)
 PagerClamps == m = "pg" => \A off \in -2..(2 * MaxText + 2) : \A h \in 0..3 :
                   Clamped(POffset(off, Len(PLayout(st.text, st.w)), h), Len(PLayout(st.text, st.w)), h)
+
+(* ---- oracle sanity (Pager) --------------------------------------------------- *)
+(* The rule "a line of width k*W occupies k rows" stated independently of   *)
+(* Pager!Lay, for texts of narrow characters: a line of n > 0 characters    *)
+(* occupies ceil(n / W) rows, an empty terminated line one row, and nothing *)
+(* follows the last terminator.                                             *)
+RECURSIVE NarrowRowCount(_, _, _, _)
+NarrowRowCount(text, W, i, n) ==      \* n: characters of the current line so far
+  LET here == IF n = 0 THEN 0 ELSE (n + W - 1) \div W IN
+  IF i > Len(text) THEN here
+  ELSE IF text[i].nl THEN (IF n = 0 THEN 1 ELSE here) + NarrowRowCount(text, W, i + 1, 0)
+  ELSE NarrowRowCount(text, W, i + 1, n + 1)
+OracleRows == m = "pg" =>
+  LET R == Rows(st.text, st.w) IN
+  /\ NothingLost(R, st.text) /\ FitsWidth(R, st.w) /\ Presents(R, st.text, st.w)
+  /\ (\A i \in 1..Len(st.text) : st.text[i].nl \/ st.text[i].w = 1) => Len(R) = NarrowRowCount(st.text, st.w, 1, 0)
+  /\ \A y \in 1..Len(R) :       \* an empty row put in anywhere but at the very end is rejected, and named
+       LET O == SubSeq(R, 1, y - 1) \o << <<>> >> \o SubSeq(R, y, Len(R)) IN
+       O # Append(R, <<>>) => ~Presents(O, st.text, st.w) /\ PresentsWhy(O, st.text, st.w) = "empty-row-not-in-text"
+
+(* Negative control: the layout as found (an exactly full line followed by  *)
+(* its terminator gets an empty row of its own) is not a presentation, with *)
+(* a narrow and with a wide character at the edge, one and two rows wide;   *)
+(* at the end of the text it falls under the reading left to the pager.     *)
+NarrowA == [g |-> 1, w |-> 1, nl |-> FALSE]
+WideC   == [g |-> 3, w |-> 2, nl |-> FALSE]
+NL      == [g |-> 4, w |-> 0, nl |-> TRUE]
+AsFoundTexts == {<<NarrowA, NarrowA, NL, NarrowA>>, <<WideC, NL, NarrowA>>, <<NarrowA, NarrowA, NarrowA, NarrowA, NL, NarrowA>>,
+                 <<NarrowA, NarrowA, NL, NL, NarrowA>>}
+ASSUME AsFoundRejected ==
+  /\ \A tx \in AsFoundTexts : /\ ~Presents(PLayoutAsFound(tx, 2), tx, 2)
+                               /\ PresentsWhy(PLayoutAsFound(tx, 2), tx, 2) = "empty-row-not-in-text"
+                               /\ Presents(PLayoutAsFound(tx, 3), tx, 3)
+                               /\ Presents(PLayout(tx, 2), tx, 2)
+  /\ Presents(PLayoutAsFound(<<NarrowA, NarrowA, NL>>, 2), <<NarrowA, NarrowA, NL>>, 2)
 =============================================================================
